@@ -34,6 +34,7 @@ type Profile struct {
 	GovKinds    []string // which modules' parameters governance changes (default: all four)
 	PCheck      int      // percent of txs that are submitted to CheckTx only (mempool admission)
 	SlotRules   []int    // override of the storage-purchase slot rules
+	SteerExport bool     // C15: the block before the export point raises an order and funds a stream
 	PBulk       int      // per-mille of txs that are repeated 100-260 times in a row (bulk populations)
 	LockedActors bool    // registrations are preferably made by accounts that hold locked eFUND
 	PSameKind   int      // percent of follow-up messages in a multi-message tx that repeat the first message's kind, actor and target
@@ -522,6 +523,16 @@ func GenScenario(t *rapid.T, p *Profile) *Scenario {
 			blk.CrashK = uniRange(t, 0, 4, "crashK")
 		}
 		s.Blocks = append(s.Blocks, blk)
+	}
+	if p.SteerExport && len(s.Blocks) >= 3 {
+		// steer towards interesting export points (export is taken after two thirds of the blocks)
+		k := len(s.Blocks)*2/3 - 1
+		extra := []Tx{
+			{Ops: []Op{{Kind: EntRaise, Actor: -1, Named: -1, Peer: uniRange(t, 0, nAcc-1, "steerPurchaser"), Amt: genAmount(t, false, "steerAmt")}}},
+			{Ops: []Op{{Kind: StrCreate, Actor: -1, Named: -1, Peer: uniRange(t, 0, nAcc-1, "steerRecv"), N: pick(t, []uint64{1, 2, 10}, "steerRate"), M: pick(t, []uint64{600, 86400, 31536000}, "steerDur"), Amt: "0", Denom: pick(t, []int{0, 1, 2}, "steerDenom")}}},
+		}
+		s.Blocks[k].Txs = append(extra, s.Blocks[k].Txs...)
+		s.Blocks[k].DtMs = 1000
 	}
 	return s
 }
